@@ -86,6 +86,10 @@ pub enum Beh {
     Healthy,
     Silent,
     TlsStall,
+    /// orderly WebSocket close (as `close0`), after which the server reads the client's answer and then keeps the TCP
+    /// connection open and silent (frozen host, partition right behind the Close, balancer leaving the TCP close to
+    /// the client as RFC 6455 7.1.1 allows)
+    CloseHold,
 }
 
 impl Beh {
@@ -101,14 +105,15 @@ impl Beh {
             Beh::Healthy => "healthy",
             Beh::Silent => "silent",
             Beh::TlsStall => "tls-stall",
+            Beh::CloseHold => "close-hold",
         }
     }
     fn parse(s: &str) -> Option<Self> {
-        [Beh::Reset, Beh::Stall, Beh::Http404, Beh::Close0, Beh::Close300, Beh::Drop, Beh::Mute, Beh::Healthy, Beh::Silent, Beh::TlsStall].into_iter().find(|b| b.name() == s)
+        [Beh::Reset, Beh::Stall, Beh::Http404, Beh::Close0, Beh::Close300, Beh::Drop, Beh::Mute, Beh::Healthy, Beh::Silent, Beh::TlsStall, Beh::CloseHold].into_iter().find(|b| b.name() == s)
     }
     /// the WebSocket handshake completes: the client "had a successful connection"
     fn connects(self) -> bool {
-        matches!(self, Beh::Close0 | Beh::Close300 | Beh::Drop | Beh::Mute | Beh::Healthy | Beh::Silent)
+        matches!(self, Beh::Close0 | Beh::Close300 | Beh::CloseHold | Beh::Drop | Beh::Mute | Beh::Healthy | Beh::Silent)
     }
     fn terminal(self) -> bool {
         matches!(self, Beh::Healthy | Beh::Http404)
@@ -116,7 +121,7 @@ impl Beh {
     /// class used in violation keys
     fn class(self) -> &'static str {
         match self {
-            Beh::Close0 | Beh::Close300 => "orderly-close",
+            Beh::Close0 | Beh::Close300 | Beh::CloseHold => "orderly-close",
             Beh::Drop => "tcp-drop",
             Beh::Mute => "stream-request-timeout",
             Beh::Reset => "refused",
@@ -263,7 +268,7 @@ impl Scenario {
                         Beh::Silent if self.ka.is_some() => ka_i + ka_t + ka_i,
                         Beh::Silent => 700 + ka_t + ka_i + BASE_MS + WIDE_TOL_UP_MS as u64,
                         Beh::Close300 => 300 + QUIET_PAR_MS,
-                        Beh::Close0 => QUIET_PAR_MS,
+                        Beh::Close0 | Beh::CloseHold => QUIET_PAR_MS,
                         _ => 0,
                     };
                 }
@@ -489,6 +494,24 @@ fn build_matrix(thorough: bool) -> (Vec<Scenario>, Bounds) {
         // the loss by silence is failure number 0: one refused retry exhausts max_retry_count = 1
         v.push(e(vec![si, Beh::Reset], 1, ka0, None));
         v.push(e(vec![si], 1, None, None));
+    }
+    // G: the server closes the WebSocket in an orderly way and then keeps the TCP connection open and silent: the
+    // tunnel connection is lost all the same (with or without keepalive), and the client reconnects like after `close0`
+    let ch = Beh::CloseHold;
+    let g = |script: Vec<Beh>, n: u32, ka: Option<(u64, u64)>, down_at: Option<usize>| Scenario { family: "G-close-hold", script, n, cap_ms: 300_000, down_at, ka, ..Scenario::plain() };
+    v.push(g(vec![ch, h], 0, None, None));
+    v.push(g(vec![ch, h], 1, ka0, None));
+    v.push(g(vec![ch, h], 0, None, Some(0)));
+    v.push(g(vec![ch, ch, h], 0, ka0, None));
+    if thorough {
+        v.push(g(vec![ch, ch, ch, h], 0, None, None));
+        v.push(g(vec![ch, ch, h], 1, None, Some(1)));
+        v.push(g(vec![ch, Beh::Reset], 1, None, None));
+        for other in [Beh::Reset, Beh::Close300, Beh::Drop, Beh::Mute] {
+            v.push(g(vec![other, ch, h], 1, None, None));
+            v.push(g(vec![ch, other, h], 2, ka0, None));
+            v.push(g(vec![ch, other, h], 0, None, Some(0)));
+        }
     }
     // F: a `wss://` server that accepts the TCP connection and never answers the TLS ClientHello:
     // every attempt is a handshake timeout (retryable)
@@ -824,7 +847,7 @@ async fn exec_script(sc: &Scenario, iso: bool) -> Exec {
             }
         }
         match b {
-            Beh::Reset | Beh::Http404 | Beh::Close0 | Beh::Close300 | Beh::Drop => {
+            Beh::Reset | Beh::Http404 | Beh::Close0 | Beh::Close300 | Beh::CloseHold | Beh::Drop => {
                 if sh.wait(LONG_WAIT_MS, |l| l.attempts[j].act_after_ms).await.is_none() {
                     ex.machinery = Some(format!("the fake server never played {} on attempt {j}", b.name()));
                     break;
@@ -1152,7 +1175,7 @@ fn judge_script(ex: &mut Exec, steps: &[Step]) {
         }
         let q = ex.quiet.iter().find(|q| q.after_attempt == j).cloned();
         let anchors = match b {
-            Beh::Reset | Beh::Close0 | Beh::Close300 | Beh::Drop => a.act_before_ms.map(|lo| (lo, a.act_after_ms)),
+            Beh::Reset | Beh::Close0 | Beh::Close300 | Beh::CloseHold | Beh::Drop => a.act_before_ms.map(|lo| (lo, a.act_after_ms)),
             // the handshake timer started no earlier than `lb` and no later than the accept
             Beh::Stall | Beh::TlsStall => Some((lb + sc.hs_ms as f64, noticed_by(&sc, a))),
             // C16: no earlier than T after the last Pong (sent not before `pong_before_ms`; the client's
@@ -1499,7 +1522,7 @@ pub fn run(args: &Args) -> Report {
     rep.bounds.insert("scenarios".into(), json!(matrix.len()));
     rep.bounds.insert("scenarios_per_family".into(), json!(fam));
     rep.bounds.insert("script_len_max".into(), json!({"families_A_B": bounds.len, "give_up_by_preconnect_failures_only": bounds.len + 1, "family_C": if thorough { 5 } else { 4 }}));
-    rep.bounds.insert("behaviours".into(), json!(["reset", "stall", "http404", "close0", "close300", "drop", "mute", "healthy", "silent (family E)", "tls-stall (family F)", "(really refusing port: family D)"]));
+    rep.bounds.insert("behaviours".into(), json!(["reset", "stall", "http404", "close0", "close300", "drop", "mute", "healthy", "silent (family E)", "tls-stall (family F)", "close-hold (family G)", "(really refusing port: family D)"]));
     rep.bounds.insert("max_retry_count".into(), json!(bounds.counts));
     rep.bounds.insert("max_retry_interval_ms".into(), json!(bounds.caps));
     rep.bounds.insert("handshake_timeout_ms".into(), json!(matrix.iter().map(|s| s.hs_ms).collect::<std::collections::BTreeSet<_>>()));
@@ -1551,7 +1574,7 @@ pub fn run(args: &Args) -> Report {
     for (_, (_, iso)) in confirmed.iter().take(2) {
         rep.sample(iso.observation());
     }
-    for want in ["E-keepalive", "F-tls-handshake", "C-reset-after-success", "B-pending-local", "A-counts-delays", "D-refused"] {
+    for want in ["G-close-hold", "E-keepalive", "F-tls-handshake", "C-reset-after-success", "B-pending-local", "A-counts-delays", "D-refused"] {
         if let Some(e) = execs.iter().find(|e| e.sc.family == want && e.findings.is_empty() && e.machinery.is_none()) {
             rep.sample(e.observation());
         }
